@@ -248,6 +248,39 @@ func treeFlowRules(c *Ctx, g *Gram, ref *precRef, rule string) {
 		}
 	}
 	nbin, nslice, nfor := 0, 0, 0
+	// optional[N] = X when N is exactly `N: X | ε` with the ε alternative yielding nil: a position holding N is a
+	// position holding X or nothing (a grammar may fold its with/without alternatives this way)
+	optional := map[string]string{}
+	{
+		byLHS := map[string][]*Production{}
+		for _, p := range g.Prods[1:] {
+			byLHS[p.LHS] = append(byLHS[p.LHS], p)
+		}
+		for n, ps := range byLHS {
+			if len(ps) != 2 {
+				continue
+			}
+			var one, eps *Production
+			for _, p := range ps {
+				switch len(p.RHS) {
+				case 0:
+					eps = p
+				case 1:
+					one = p
+				}
+			}
+			if one == nil || eps == nil {
+				continue
+			}
+			ai1, ai0 := g.Actions[one.Num], g.Actions[eps.Num]
+			if ai1 == nil || len(ai1.Calls) != 0 || len(ai1.PassIdx) != 1 || ai0 == nil || ai0.Body == nil {
+				continue
+			}
+			if txt := exprText(g.Fset, ai0.Body); strings.Contains(txt, "yyVAL."+g.TypeOf[n]+" = nil") {
+				optional[n] = one.RHS[0]
+			}
+		}
+	}
 	for _, p := range g.Prods[1:] {
 		ai := g.Actions[p.Num]
 		ff, probs := g.FieldFlow(p, ctors)
@@ -304,11 +337,15 @@ func treeFlowRules(c *Ctx, g *Gram, ref *precRef, rule string) {
 			want(p, ff, "SliceExpr.LBracket", fmt.Sprintf("$%d.Pos", lb))
 			want(p, ff, "SliceExpr.RBracket", fmt.Sprintf("$%d.Pos", rb))
 		case p.LHS == "for_stmt":
-			nfor++
+			weight := 1
 			seg := 0
 			at := map[int]string{}
 			body := ""
 			for i, s := range p.RHS {
+				if x := optional[s]; x == "for_stmt_elem" || x == "expr" {
+					s = x
+					weight *= 2 // stands for the alternative with and the one without this clause
+				}
 				switch s {
 				case "SEMICOLON":
 					seg++
@@ -318,6 +355,7 @@ func treeFlowRules(c *Ctx, g *Gram, ref *precRef, rule string) {
 					body = fmt.Sprintf("$%d", i+1)
 				}
 			}
+			nfor += weight
 			get := func(i int) string {
 				if s, ok := at[i]; ok {
 					return s
@@ -440,7 +478,7 @@ func treeFlowRules(c *Ctx, g *Gram, ref *precRef, rule string) {
 	}
 	r.FloorN("binary-shaped productions", nbin, 20)
 	r.FloorN("slice productions", nslice, 24)
-	r.FloorN("for productions", nfor, 8)
+	r.FloorN("for clause combinations covered by productions", nfor, 8)
 	r.Floor(rule, 250)
 	r.Floor("TREE-CHILD-KEPT", 100)
 
